@@ -31,7 +31,7 @@ Definition head_ok (s : qsl) (h : nat) (r : list nat) : Prop :=
   | None | Some QUld => insq s h = true
   | Some QUld2 | Some QUcas => insq s h = false
   | Some (QUstNext x) => insq s h = false /\ hd_error r = Some x /\ q_next s h = Some x
-  | Some (QUstGot x) => insq s h = false /\ hd_error r = Some x
+  | Some (QUstGot x) => insq s h = false /\ hd_error r = Some x /\ q_next s h = None /\ pcq s x = Some QSpin
   | Some QSpin => insq s h = false /\ q_got s h = true
   | _ => False
   end.
@@ -67,6 +67,8 @@ Qed.
 
 Lemma last_indep (l : list nat) x a b : last (x :: l) a = last (x :: l) b.
 Proof. revert x. induction l as [|y l IH]; intros x; cbn; [reflexivity|]. apply IH. Qed.
+Lemma last_cons (r : list nat) h d : last (h :: r) d = last r h.
+Proof. destruct r as [|n r]; [reflexivity|]. change (last (n :: r) d = last (n :: r) h). apply last_indep. Qed.
 Lemma links_last s l : forall a, links s a l -> q_next s (last l a) = None.
 Proof. induction l as [|b r IH]; intros a; cbn; [auto|]. intros (_ & _ & R). destruct r; [exact R|]. apply IH in R. rewrite (last_indep _ _ a b). exact R. Qed.
 (* members behind the head are waiters *)
